@@ -756,10 +756,9 @@ namespace Terway.Daemon
 /-! ### histories -/
 
 /-- requests the invariant is proved for: every kind except a failing ADD that keeps what it took
-    (the defect repaired in `Manager.Allocate`) or that hands back addresses the pod already held (the
-    recorded finding `failed-readd/releases-acknowledged-address`) -/
+    (the defect repaired in `Manager.Allocate`) -/
 def Kind.Good : Kind → Prop
-  | .addFail pick back => back = true ∧ ∀ e ∈ pick, e.owner = none
+  | .addFail _ back => back = true
   | _ => True
 
 def Op.Good : Op → Prop
@@ -773,8 +772,8 @@ def Op.Good : Op → Prop
 theorem Inv.of_pending {s : Svc} (h : Inv s) (l : List String) : Inv { s with pending := l } :=
   ⟨h.keys, h.dbKeys, h.shape, h.bound, h.recorded, h.noShare⟩
 
-theorem addFail_good_noop {s : Svc} (h : Inv s) {p : String} {pick : List Ent}
-    (hfree : ∀ e ∈ pick, e.owner = none) : (addFailBody s p pick true).1 = s := by
+theorem addFail_good_noop {s : Svc} (h : Inv s) {p : String} {pick : List Ent} :
+    (addFailBody s p pick true).1 = s := by
   unfold addFailBody
   by_cases h0 : pick = []
   · simp [h0]
@@ -784,8 +783,10 @@ theorem addFail_good_noop {s : Svc} (h : Inv s) {p : String} {pick : List Ent}
       obtain ⟨eni, sp⟩ := pickOK_spec hp
       simp only [if_true]
       rw [sp.head]
-      have : release s.pool p eni (pick.map (·.ip)) = s.pool :=
-        release_unowned h.keys (fun e he => ⟨(sp.each e he).mem, (sp.each e he).onEni⟩) hfree
+      have : release s.pool p eni ((pick.filter (·.owner = none)).map (·.ip)) = s.pool :=
+        release_unowned h.keys
+          (fun e he => ⟨(sp.each e (List.mem_filter.mp he).1).mem, (sp.each e (List.mem_filter.mp he).1).onEni⟩)
+          (fun e he => by simpa using (List.mem_filter.mp he).2)
       rw [this]
     · rw [if_neg hp]
 
@@ -809,10 +810,10 @@ theorem Inv.body_pres {s : Svc} (h : Inv s) {k : Kind} (hk : k.Good) (p cid : St
     | notFound => exact h
     | error => exact h
   | addFail pick back =>
-    obtain ⟨hb, hfree⟩ := hk
+    have hb : back = true := hk
     subst hb
     simp only [body]
-    rw [addFail_good_noop h hfree]; exact h
+    rw [addFail_good_noop h]; exact h
   | del =>
     simp only [body, delBody]
     cases v with
